@@ -65,6 +65,10 @@ def judge(rep, scn, out):
     tainted = oracles.tainted_set(scn, out)
     exp, _ = engine.expected_values(scn, out)
     bad = []
+    if getattr(out, 'aborted', None):
+        bad.append(('never-terminates', f'run_tasks does not terminate: {out.aborted}; failing={failing}'))
+        report_bad(rep, scn, bad)
+        return True
     starts = {}
     for e in out.events:
         if e['k'] == 'start' and e.get('gen') == 1:
@@ -137,7 +141,7 @@ def run_shard(rep):
     rep.require('failing_tasks', 500)
     rep.require('post_raise_windows_observed', 50)
     rep.require('untainted_values_checked', 500)
-    drive(rep, 'C10', make_scn=make_scn, judge=judge, n_sim=cfg['n_sim'], n_real=cfg['n_real'])
+    drive(rep, 'C10', make_scn=make_scn, judge=judge, n_sim=cfg['n_sim'], n_real=cfg['n_real'], handles_spin=True)
 
 
 def replay(rep, wit):
